@@ -21,8 +21,12 @@ class C17(Prop):
                   "stub": ["solver (tagged answers)", "mosek package (stand-in)", "sys.stdout"]}
 
     def generate(self, rng, tier, idx):
-        plan = gen_session(rng, tier, peer_mode="tagged", nsolves=rng.choice([1, 1, 2, 3]), class_duals=True,
-                           decorations=[] if rng.random() < 0.5 else None)
+        wts, bias = None, None
+        if rng.random() < 0.12:
+            wts, bias = {"ppa": 1}, "param"       # classes whose list of conditions depends on a parameter (D, M)
+        plan = gen_session(rng, tier, peer_mode="tagged", nsolves=rng.choice([1, 1, 2, 3] if wts is None else [2, 3]),
+                           class_duals=True, decorations=[] if rng.random() < 0.5 else None, weights=wts,
+                           edit_bias=bias)
         # label stress: repeated queries at one (named) point, and several points carrying the same name
         first_solve = next(k for k, op in enumerate(plan["ops"]) if op["op"] == "solve")
         extra = []
